@@ -414,7 +414,7 @@ static void do_op(char *line)
 				int is_p = (*sl) == (unsigned long)plthook_return;
 				if (!is_m && !is_p)
 					break;
-				if (mtd.idx <= 0)
+				if (mtd.idx <= 0 || mtd.dead)
 					break; /* the exit hook would assert: report the trampoline as target */
 				errno = 55;
 #ifdef C01_WITH_PLT
@@ -624,6 +624,65 @@ static void dispatch(int n, char *line)
 	pthread_mutex_unlock(&w->mu);
 }
 
+/* LIFE <ops> @ <ops> @ ... : a NEW thread runs the first group of operations (separated by ';') and exits; glibc then
+ * runs the key destructors: libmcount's mtd_dtor first (its key is older), then life_dtor, which prints
+ * "D <mtd_key value set> <recursion_marker> <dead>" and runs the next group in the torn-down thread; it sets its
+ * own value again while groups are left (up to PTHREAD_DESTRUCTOR_ITERATIONS rounds). */
+extern pthread_key_t mtd_key;
+static pthread_key_t life_key;
+struct life {
+	char *grp[8];
+	int n, cur;
+};
+
+static void run_group(char *text)
+{
+	char *save = NULL, *op;
+	for (op = strtok_r(text, ";", &save); op; op = strtok_r(NULL, ";", &save)) {
+		while (*op == ' ')
+			op++;
+		if (*op && *op != '\n')
+			do_op(op);
+	}
+}
+
+static void life_dtor(void *p)
+{
+	struct life *l = p;
+	printf("D %d %d %d", pthread_getspecific(mtd_key) != NULL, mtd.recursion_marker, mtd.dead);
+	snap();
+	run_group(l->grp[l->cur++]);
+	if (l->cur < l->n)
+		pthread_setspecific(life_key, l);
+}
+
+static void *life_main(void *arg)
+{
+	struct life *l = arg;
+	run_group(l->grp[0]);
+	l->cur = 1;
+	if (l->n > 1)
+		pthread_setspecific(life_key, l);
+	return NULL;
+}
+
+static void do_life(char *line)
+{
+	struct life l = { .n = 0 };
+	char *save = NULL, *g;
+	pthread_t th;
+
+	for (g = strtok_r(line + 5, "@", &save); g && l.n < 8; g = strtok_r(NULL, "@", &save))
+		l.grp[l.n++] = g;
+	if (life_key <= mtd_key) {
+		printf("LIFE-KEY-ORDER\n");
+		return;
+	}
+	fflush(stdout);
+	pthread_create(&th, NULL, life_main, &l);
+	pthread_join(th, NULL);
+}
+
 int main(int argc, char **argv)
 {
 	static char line[1 << 16];
@@ -640,6 +699,7 @@ int main(int argc, char **argv)
 	setup_fake_module();
 #endif
 	fake_on = 1;
+	pthread_key_create(&life_key, life_dtor);
 	while (fgets(line, sizeof line, stdin)) {
 		char op[8] = "";
 
@@ -650,6 +710,10 @@ int main(int argc, char **argv)
 			break;
 		if (!strcmp(op, "T")) {
 			cur = atoi(line + 2);
+			continue;
+		}
+		if (!strcmp(op, "LIFE")) {
+			do_life(line);
 			continue;
 		}
 		dispatch(cur, line);
